@@ -42,9 +42,10 @@ theorem do_expose_ownership_complete (beh : Id → Rect → List DrawOp) (st st'
       ∃ sh ∈ shots, sh.rb.writable L C = true :=
   fun L C hc ho => (flushRender_shots beh st st' t shots h hroot).2 hflag L C hc ho
 
-/-- **Confinement**: whatever drawing program runs in the place of a handler — text, erase, characters, skips, clears at
-    any coordinates, with any translation, clip and pen changes — the only buffer cells that change are damaged cells
-    owned by that handler's window; positions are relative to the window's top-left corner. -/
+/-- **Confinement**: whatever drawing program runs in the place of a handler — text, erase, characters, line segments,
+    skips, clears, copies and moves of rectangles at any coordinates, with any translation, clip and pen changes, saved and
+    restored (`save` / `savepen` / `restore`) in any nesting — the only buffer cells that change are damaged cells owned
+    by that handler's window; positions are relative to the window's top-left corner. -/
 theorem confinement (beh : Id → Rect → List DrawOp) (st st' : St) (t : Tree) (shots : List Shot)
     (h : flushRender beh st t = .ok (st', shots)) (hroot : RootOk t) :
     ∀ sh ∈ shots, ∀ (prog : List DrawOp) (L C : Int), (sh.rb.run prog).cells L C ≠ sh.rb.cells L C →
@@ -52,7 +53,7 @@ theorem confinement (beh : Id → Rect → List DrawOp) (st st' : St) (t : Tree)
   intro sh hsh prog L C hne
   cases hw : sh.rb.writable L C with
   | true => exact do_expose_ownership beh st st' t shots h hroot sh hsh L C hw
-  | false => exact absurd (run_cells_of_not_writable prog sh.rb L C hw) hne
+  | false => exact absurd (run_cells_of_not_writable prog sh.rb (flushRender_shots_masksLe beh st st' t shots h sh hsh) L C hw) hne
 
 /-- The same on the terminal: whatever all the handlers draw, a terminal cell that the flush changes is a damaged
     cell inside the root window. -/
